@@ -333,6 +333,11 @@ def s1_fragmentation(src, nreq, ncuts, kinds_menu, with_waiter_events):
             # transport loss: right away (not a request timeout later) the connection is closed and nobody waits
             res["at_eof"] = dict(pending=[i for i, t in enumerate(tasks) if not t.done()], conn_open=conn._reader is not None,
                                  closed=len(closed))
+        elif fault in ("wrong_id", "dup_id", "unsolicited", "bad_size"):
+            # the whole (faulty) stream has been fed: a mismatch / malformed frame closes the connection and fails
+            # every outstanding waiter then and there
+            res["at_fault"] = dict(pending=[i for i, t in enumerate(tasks) if not t.done()], conn_open=conn._reader is not None,
+                                   closed=len(closed))
         # quiet period longer than the request timeout: every waiter must be resolved by now
         await asyncio.sleep(3.0)
         await vloop.settle(5)
@@ -391,6 +396,12 @@ def s1_fragmentation(src, nreq, ncuts, kinds_menu, with_waiter_events):
             if t.done() and not t.cancelled() and t.exception() is not None and wevent != 2:
                 src.check(isinstance(t.exception(), (Errors.KafkaConnectionError, Errors.CorrelationIdError)),
                           f"waiter {i} outstanding at EOF failed with {type(t.exception()).__name__}, not a connection error", kinds=kinds)
+    if faulty and "at_fault" in res and wevent != 2:
+        af = res["at_fault"]
+        src.check(not af["pending"], f"waiters {af['pending']} still pending right after a {fault} frame (they are only released by their own request timeout)",
+                  kinds=kinds, at=fpos)
+        src.check(not af["conn_open"] and af["closed"] == 1, f"connection not closed exactly once right after a {fault} frame",
+                  closed=af["closed"], kinds=kinds, at=fpos)
     if fault == "none" and wevent == 0:
         for i, t in enumerate(tasks):
             src.check(t.done() and not t.cancelled() and t.exception() is None,
